@@ -110,6 +110,13 @@ func decodeVal(x *sx.Sexp) interface{} {
 		if isNil {
 			return map[string]int(nil)
 		}
+		if len(x.Xs) > 3 && x.Xs[3].Xs[1].Xs[0].A == "struct" {
+			out := map[string]T2{}
+			for _, e := range x.Xs[3:] {
+				out[string(e.Xs[0].B)] = decodeVal(e.Xs[1]).(T2)
+			}
+			return out
+		}
 		out := map[string]int{}
 		for _, e := range x.Xs[3:] {
 			out[string(e.Xs[0].B)] = decodeVal(e.Xs[1]).(int)
